@@ -125,6 +125,22 @@ impl Scenario for StartupScenario {
             }
             v
         };
+        // READ responses of several fragments: the integrity poll is complete with its last fragment, not with its first - and
+        // now and then the series breaks off (a fragment never comes), so that the poll fails after it was partly answered
+        if rng.chance(1, 4) {
+            let n = rng.urange(2, 3);
+            script.push(MOp::ReadShape {
+                assoc: 0,
+                fragments: (0..n).map(|_| rng.range(1, 3) as u8).collect(),
+            });
+            if rng.bool() {
+                script.push(MOp::SeriesDev {
+                    assoc: 0,
+                    at: rng.urange(1, n - 1),
+                    dev: smast::SeriesDev::Skip,
+                });
+            }
+        }
         let first = gen_failures(rng);
         if !first.is_empty() {
             script.push(MOp::Replies {
@@ -338,6 +354,9 @@ struct Model {
     events_avail: u8,
     /// running task: (name, kind, current sequence number, time the current request was written, iin processed for it)
     running: Option<(String, Option<Kind>, u8, u64, Option<(u8, u8)>)>,
+    /// sequence number of the next fragment of the READ response series being received for the running task (None: the first
+    /// fragment is awaited)
+    series_next: Option<u8>,
     /// unsolicited responses in arrival order: (seq, must be accepted, CON, arrival time)
     unsol_expected: Vec<(u8, bool, bool, u64)>,
     unsol_accepted: Vec<u8>,
@@ -359,6 +378,7 @@ impl Model {
             gate_open: false,
             events_avail: 0,
             running: None,
+            series_next: None,
             unsol_expected: Vec::new(),
             unsol_accepted: Vec::new(),
             unsol_to_handler: Vec::new(),
@@ -589,6 +609,7 @@ pub fn analyse(
                     }
                 }
                 m.running = Some((task.clone(), kind, *seq, *t, None));
+                m.series_next = None;
             }
             H::Request { t, dest, seq, .. } => {
                 if let Some(m) = models.get_mut(dest) {
@@ -597,6 +618,7 @@ pub fn analyse(
                         r.3 = t.saturating_sub(case.latency.0);
                         r.4 = None;
                     }
+                    m.series_next = None;
                 }
             }
             H::TaskSuccess { t, assoc, task, .. } => {
@@ -702,14 +724,28 @@ pub fn analyse(
                     let Some(r) = m.running.as_mut() else {
                         continue;
                     };
-                    if ctrl.uns || ctrl.seq != r.2 || !ctrl.fir || !ctrl.fin || iin.1 & 0x07 != 0 {
+                    // the first fragment carries FIR and the request's number, later ones neither FIR nor a gap; a fragment that is
+                    // not the last asks for confirmation (anything else ends the task without its indications being looked at)
+                    let first = m.series_next.is_none();
+                    let expected_seq = m.series_next.unwrap_or(r.2);
+                    if ctrl.uns
+                        || ctrl.seq != expected_seq
+                        || ctrl.fir != first
+                        || (!ctrl.fin && !ctrl.con)
+                        || iin.1 & 0x07 != 0
+                    {
                         continue;
                     }
                     if r.4.is_some() {
                         // a second copy of the answer: the task is already over or about to be
                         continue;
                     }
-                    r.4 = Some(iin);
+                    if ctrl.fin {
+                        r.4 = Some(iin);
+                    } else {
+                        m.series_next = Some((ctrl.seq + 1) & 0x0F);
+                        bump("probe.non_final_fragment_of_a_read_series");
+                    }
                     if iin.0 & 0x90 != 0 || iin.1 & 0x08 != 0 {
                         nontrivial = true;
                         bump("probe.indication_in_solicited_response");
